@@ -87,23 +87,18 @@ func c07Release(p *chk.Prog, r *chk.Report) {
 			x.Check("SetBalancer:deleted:unassign-then-reprocess", posOf(w, f), !w.Found, "", "a deleted service's address is released without requesting a full re-sync")
 		}
 		x.Check("SetBalancer:deleted:unassign-present", f.Pos(), nUn == 1, "", "the deleted-service branch does not release the service's allocation")
-		for _, e := range g.EdgesImplying(g.GPat(true, "RECV.isServiceAllocated(N)", chk.H("N", name))) {
+		// "the service holds an allocation": c.ips.Pool(name) != "" (the one-line helper that wraps it is expanded by
+		// the normalisation, so both spellings are this test)
+		nAlloc := 0
+		for _, e := range g.EdgesImplying(g.GPat(true, `RECV.ips.Pool(N) != ""`, chk.H("N", name))) {
 			if !g.Dominated(chk.Site{G: g, B: e.B.Succs[e.K]}, g.GPat(true, "RO == nil", chk.H("RO", isParam(f, "svcRo")))) {
 				continue
 			}
+			nAlloc++
 			w := g.BranchAlways(e, f.ContainsPat("RECV.ips.Unassign(N)", chk.H("N", name)))
 			x.Check("SetBalancer:deleted:allocated-implies-unassign", posOf(w, f), !w.Found, "", "a deleted service that holds addresses is not released")
 		}
-		ia := need(x, p, "controller", "controller", "isServiceAllocated")
-		if ia != nil {
-			okk := false
-			for _, rt := range ia.Graph().Returns() {
-				if len(retResults(rt)) == 1 && ia.MatchWith(`RECV.ips.Pool(K) != ""`, retResults(rt)[0], chk.H("K", isParamIdx(ia, 0))) != nil {
-					okk = true
-				}
-			}
-			x.Check("isServiceAllocated:definition", ia.Pos(), okk, "", "isServiceAllocated is not `c.ips.Pool(key) != \"\"`")
-		}
+		x.Check("SetBalancer:deleted:allocation-test", f.Pos(), nAlloc >= 1, "", "the deleted-service branch does not test whether the service holds an allocation (c.ips.Pool(name) != \"\")")
 	}
 	// (b)
 	conv := g.FindPat("RECV.convergeBalancer(_, N, _)", chk.H("N", name))
@@ -167,21 +162,33 @@ func c07Release(p *chk.Prog, r *chk.Report) {
 			x.Check("SetBalancer:release-result-sticks", posOf(w4, f), !w4.Found, "", "after a release the result can be overwritten or a different result returned: "+describe(f, w4))
 		}
 	}
-	// releasedIPs
+	// releasedIPs: true exactly when some previous address p equals none of the current ones
 	rf := need(x, p, "controller", "", "releasedIPs")
 	if rf != nil {
 		rg := rf.Graph()
 		outer := rf.RangeLoops(isParamIdx(rf, 0))
 		inner := rf.RangeLoops(isParamIdx(rf, 1))
-		okk := len(outer) == 1 && len(inner) == 1
+		okk := len(outer) == 1 && len(inner) == 1 && chk.InBody(outer[0], inner[0])
 		if okk {
 			pv, cv := rangeVal(rf, outer[0]), rangeVal(rf, inner[0])
-			var held types.Object
+			// one leaf for the comparison in either orientation
+			equal := func(pos bool) chk.Guard {
+				return chk.GFunc(func(ft chk.Fact) bool {
+					if ft.Val != pos {
+						return false
+					}
+					return rf.MatchWith("P.Equal(C)", ft.E, chk.H("P", pv), chk.H("C", cv)) != nil || rf.MatchWith("C.Equal(P)", ft.E, chk.H("P", pv), chk.H("C", cv)) != nil
+				})
+			}
+			// the "found" flags: booleans set to true in the inner loop only where the two addresses are equal
+			var found []chk.Guard
 			for _, s := range rg.Find(rf.IsAssignPat("H", "true")) {
-				if rg.Dominated(s, rg.GPat(true, "P.Equal(C)", chk.H("P", pv), chk.H("C", cv))) || rg.Dominated(s, rg.GPat(true, "C.Equal(P)", chk.H("P", pv), chk.H("C", cv))) {
-					held = rf.ObjOf(s.Node.(*ast.AssignStmt).Lhs[0])
-				} else {
-					okk = false
+				if !chk.InBody(inner[0], s.Node) {
+					continue
+				}
+				if rg.Dominated(s, equal(true)) {
+					h := rf.ObjOf(s.Node.(*ast.AssignStmt).Lhs[0])
+					found = append(found, chk.GBool(true, func(e ast.Expr) bool { return rf.IsObj(h)(e) || rf.IsObj(h)(rf.Resolve(e)) }))
 				}
 			}
 			nTrue := 0
@@ -194,7 +201,8 @@ func c07Release(p *chk.Prog, r *chk.Report) {
 				switch {
 				case rf.IsConstBool(res[0], true):
 					nTrue++
-					if held == nil || !rg.Dominated(rt, chk.GBool(false, rf.IsObj(held))) || !chk.InBody(outer[0], rt.Node) {
+					// p was compared with every current address and equals none
+					if !chk.InBody(outer[0], rt.Node) || forallBefore(rf, rg, inner[0], chk.GNot(equal(true)), rt) != "" {
 						okk = false
 					}
 				case rf.IsConstBool(res[0], false):
@@ -205,31 +213,13 @@ func c07Release(p *chk.Prog, r *chk.Report) {
 					okk = false
 				}
 			}
-			// every outer iteration with !held returns true; held starts false per iteration
-			if held != nil {
-				es := rg.EdgesImplying(chk.GBool(false, rf.IsObj(held)))
-				for _, e := range es {
-					if rg.BranchAlways(e, func(n ast.Node) bool {
-						rs, ok := n.(*ast.ReturnStmt)
-						return ok && len(rs.Results) == 1 && rf.IsConstBool(rs.Results[0], true)
-					}).Found {
-						okk = false
-					}
-				}
-				decl := rg.Find(func(n ast.Node) bool {
-					as, ok := n.(*ast.AssignStmt)
-					return ok && as.Tok.String() == ":=" && len(as.Lhs) == 1 && rf.ObjOf(as.Lhs[0]) == held && rf.IsConstBool(as.Rhs[0], false) && chk.InBody(outer[0], n) && !chk.InBody(inner[0], n)
-				})
-				okk = okk && len(decl) == 1 && len(es) > 0 && nTrue == 1
-			}
-			ok2, _ := rg.LoopForall(outer[0], chk.GNever())
-			_ = ok2
-			// no break out of the outer loop
-			_, _, done := rg.RangeBlocks(outer[0])
-			loopB, _, _ := rg.RangeBlocks(outer[0])
-			for _, b := range rg.Blocks {
-				for _, s := range b.Succs {
-					if s == done && b != loopB {
+			okk = okk && nTrue >= 1 && !loopHasBreak(rg, outer[0])
+			// an iteration of the outer loop goes on to the next previous address only when an equal current one was found
+			if okk {
+				ends := rg.LoopIteration(outer[0], chk.GOr(found...))
+				okk = len(found) > 0 && len(ends) > 0
+				for _, e := range ends {
+					if !e.OK {
 						okk = false
 					}
 				}
